@@ -1104,12 +1104,8 @@ func (c ipamClient) AssignIP(ctx context.Context, args AssignIPArgs) error {
 		// in the KVPair.
 		_, err = c.blockReaderWriter.updateBlock(ctx, obj)
 		if err != nil {
-			if _, ok := err.(cerrors.ErrorResourceUpdateConflict); ok {
-				log.WithError(err).Debug("CAS error assigning IP - retry")
-				continue
-			}
-
-			log.WithError(err).Warningf("Update failed on block %s", block.CIDR.String())
+			// The IP was not assigned: take back the handle increment made above, whether we
+			// are about to retry (the retry increments the handle again) or to give up.
 			if args.HandleID != nil {
 				// Extend timeout for the cleanup, if needed.
 				cleanupCtx, cancel := contextForCleanup(ctx)
@@ -1118,6 +1114,12 @@ func (c ipamClient) AssignIP(ctx context.Context, args AssignIPArgs) error {
 				}
 				cancel()
 			}
+			if _, ok := err.(cerrors.ErrorResourceUpdateConflict); ok {
+				log.WithError(err).Debug("CAS error assigning IP - retry")
+				continue
+			}
+
+			log.WithError(err).Warningf("Update failed on block %s", block.CIDR.String())
 			return err
 		}
 		return nil
